@@ -448,4 +448,171 @@ theorem annots_total {p : Params} (hp : HlslParams p) : ∀ (ds : List MDecl) (b
       | none => exact ⟨r, by simp [annots, ho, hr]⟩
       | some a => exact ⟨(d.name, a) :: r, by simp [annots, ho, hr]⟩
 
+/-! ### the Metal sort is the identity on the allocator's output (C06: slots tile in declaration order) -/
+
+open RsslVerif.Spec.Slots
+
+theorem tiles_sorted : ∀ {s : Nat} {rs : List (Nat × Nat)} {e : Nat}, TilesTo s rs e →
+    (∀ r ∈ rs, s ≤ r.1) ∧ rs.Pairwise (fun a b => a.1 ≤ b.1) := by
+  intro s rs e h
+  induction h with
+  | nil s => exact ⟨by simp, List.Pairwise.nil⟩
+  | cons s c e r _ ih =>
+    obtain ⟨h1, h2⟩ := ih
+    refine ⟨?_, ?_⟩
+    · intro x hx
+      rcases List.mem_cons.1 hx with rfl | hx
+      · exact Nat.le_refl _
+      · exact Nat.le_trans (Nat.le_add_right s c) (h1 x hx)
+    · exact List.Pairwise.cons (fun x hx => Nat.le_trans (Nat.le_add_right s c) (h1 x hx)) h2
+
+/-- locations of the bindings of group `g`, in declaration order -/
+def locsOf (g : Nat) : List (Option Binding) → List Loc
+  | [] => []
+  | none :: bs => locsOf g bs
+  | some b :: bs => (if b.set = g then [b.loc] else []) ++ locsOf g bs
+
+theorem events_locs {p : Params} {dflt : Nat}
+    {ev : Nat → MDecl → Option Binding → Except String (Option (Nat × Entry))} (hev : ∀ i, EvOk (ev i)) (g : Nat) :
+    ∀ (ds : List MDecl) (bs : List (Option Binding)) (i : Nat) (evs : List (Nat × Entry)),
+      RsslVerif.Thm.C06.Agrees p dflt (ds.map MDecl.toSlot) bs → events ev i ds bs = .ok evs →
+      ((evs.filter (fun x => x.1 == g)).map (·.2.loc)) = locsOf g bs := by
+  intro ds
+  induction ds with
+  | nil =>
+    intro bs i evs hag h
+    cases bs with
+    | nil => simp [events] at h; subst h; simp [locsOf]
+    | cons _ _ => simp [RsslVerif.Thm.C06.Agrees] at hag
+  | cons d ds ih =>
+    intro bs i evs hag h
+    cases bs with
+    | nil => simp [RsslVerif.Thm.C06.Agrees] at hag
+    | cons ob bs =>
+      simp only [List.map_cons, RsslVerif.Thm.C06.Agrees] at hag
+      obtain ⟨hd, hrest⟩ := hag
+      unfold events at h
+      split at h
+      · cases h
+      · rename_i o ho
+        split at h
+        · cases h
+        · rename_i r hr
+          simp only [Except.ok.injEq] at h
+          have ihr := ih bs (i + 1) r hrest hr
+          obtain ⟨hnone, hsome⟩ := hev i d ob o ho
+          cases ob with
+          | none =>
+            have : o = none := hnone rfl
+            subst this
+            simp only at h
+            subst h
+            simpa [locsOf] using ihr
+          | some b =>
+            obtain ⟨hb, _, _⟩ := hd
+            obtain ⟨e, rfl, _, hloc⟩ := hsome b rfl (toSlot_other hb)
+            simp only at h
+            subst h
+            simp only [List.filter_cons, locsOf]
+            by_cases hg : b.set = g
+            · simp [hg, hloc, ihr]
+            · simp [hg, ihr]
+
+theorem indexRanges_locs {p : Params} {dflt : Nat} (g : Nat) :
+    ∀ (ds : List Decl) (bs : List (Option Binding)),
+      RsslVerif.Thm.C06.Agrees p dflt ds bs → (∀ b, some b ∈ bs → ∃ i, b.loc = .index i) →
+      (indexRanges p g ds bs).map (fun r => Loc.index r.1) = locsOf g bs := by
+  intro ds
+  induction ds with
+  | nil =>
+    intro bs hag _
+    cases bs with
+    | nil => simp [indexRanges, locsOf]
+    | cons _ _ => simp [RsslVerif.Thm.C06.Agrees] at hag
+  | cons d ds ih =>
+    intro bs hag hall
+    cases bs with
+    | nil => simp [RsslVerif.Thm.C06.Agrees] at hag
+    | cons ob bs =>
+      simp only [RsslVerif.Thm.C06.Agrees] at hag
+      have ihr := ih bs hag.2 (fun b hb => hall b (by simp [hb]))
+      cases ob with
+      | none => simpa [indexRanges, locsOf] using ihr
+      | some b =>
+        obtain ⟨i, hi⟩ := hall b (by simp)
+        simp only [indexRanges, locsOf, hi, List.map_append, ihr]
+        by_cases hg : b.set = g <;> simp [hg]
+
+theorem keyed_of_locs : ∀ (es : List Entry) (ks : List Nat), es.map (·.loc) = ks.map Loc.index →
+    keyed es = some (ks.zip es) := by
+  intro es
+  induction es with
+  | nil => intro ks h; cases ks <;> simp [keyed] at h ⊢
+  | cons e es ih =>
+    intro ks h
+    cases ks with
+    | nil => simp at h
+    | cons k ks =>
+      simp only [List.map_cons, List.cons.injEq] at h
+      simp [keyed, h.1, locIndex, ih ks h.2]
+
+theorem pairwise_zip_fst (ks : List Nat) : ∀ (es : List Entry), ks.Pairwise (· ≤ ·) →
+    (ks.zip es).Pairwise (fun a b => a.1 ≤ b.1) := by
+  induction ks with
+  | nil => intro es _; simp
+  | cons k ks ih =>
+    intro es h
+    cases es with
+    | nil => simp
+    | cons e es =>
+      rw [List.pairwise_cons] at h
+      simp only [List.zip_cons_cons]
+      refine List.Pairwise.cons ?_ (ih es h.2)
+      intro x hx
+      exact h.1 x.1 (List.of_mem_zip (a := x.1) (b := x.2) hx).1
+
+/-- a group whose slots are non-decreasing in registration order is left as it is by the Metal sort -/
+theorem sortGroup_id {g : Group} {ks : List Nat} (hl : g.bindings.map (·.loc) = ks.map Loc.index)
+    (hs : ks.Pairwise (· ≤ ·)) : sortGroup g = .ok g := by
+  have hlen : ks.length = g.bindings.length := by
+    have := congrArg List.length hl; simpa using this.symm
+  unfold sortGroup
+  rw [keyed_of_locs _ _ hl]
+  simp only [sortKeyed_sorted _ (pairwise_zip_fst ks _ hs)]
+  have : (ks.zip g.bindings).map (·.2) = g.bindings := by
+    rw [List.map_snd_zip]; omega
+  rw [this]
+
+theorem sortGroups_id : ∀ (gs : List Group), (∀ g ∈ gs, sortGroup g = .ok g) → sortGroups gs = .ok gs := by
+  intro gs
+  induction gs with
+  | nil => intro _; rfl
+  | cons g gs ih =>
+    intro h
+    simp [sortGroups, h g (by simp), ih (fun x hx => h x (by simp [hx]))]
+
+theorem all_index {p : Params} {dflt : Nat} (hsba : p.supportBufferAddress = false) :
+    ∀ (ds : List Decl) (bs : List (Option Binding)), RsslVerif.Thm.C06.Agrees p dflt ds bs → AllGood p ds bs →
+      ∀ b, some b ∈ bs → ∃ i, b.loc = .index i := by
+  intro ds
+  induction ds with
+  | nil => intro bs hag _ b hb; cases bs <;> simp_all [RsslVerif.Thm.C06.Agrees]
+  | cons d ds ih =>
+    intro bs hag hgood b hb
+    cases bs with
+    | nil => simp at hb
+    | cons ob bs =>
+      simp only [RsslVerif.Thm.C06.Agrees] at hag
+      simp only [AllGood] at hgood
+      rcases List.mem_cons.1 hb with h | h
+      · have hg := hgood.1 b h.symm
+        cases hl : b.loc with
+        | index i => exact ⟨i, rfl⟩
+        | inline o =>
+          simp only [GoodFor, hl] at hg
+          rw [hsba] at hg
+          exact absurd hg.2.1 (by simp)
+      · exact ih bs hag.2 hgood.2 b h
+
+
 end RsslVerif.Lemmas.Meta
